@@ -109,6 +109,36 @@ def run(replay=None):
         events.append({'kind': 'check', 'prop': project(p, ids=False), 'schema': scj, 'out': out})
         info[len(events)] = (text, out, msg)
         rep.clause('check:' + out)
+    # sessions: ONE property object checked against schema A, then a variant B (other types for some fields), then A again;
+    # every call must give the verdict HplTyping derives for THAT schema (schema checking is a pure function)
+    from hpl import types as T
+    scb = dict(sc)
+    mb = sc['t']
+    fb = dict(mb.fields)
+    fb.update({'s': T.FLOAT64, 'n': T.STRINGS, 'b': T.FLOAT64})
+    scb['t'] = scb['u'] = T.MessageType('M2', fields=fb, constants=dict(mb.constants))
+    scbj = {k: tok(v) for k, v in scb.items()}
+    nsess = 0
+    for s in sents:
+        toks, _ = render.substitute(s, lits=grammar.STD_LITS)
+        text = ' '.join(toks)
+        if not any(x in text for x in (' = k', '= s )', 'in {', '!= @A . s')) or rnd.random() > (1.0 if thorough else 0.6):
+            continue
+        o, p = call_parser('property', text)
+        if o != 'ast':
+            continue
+        nsess += 1
+        snap = project(p, ids=False)      # the property as parsed: the oracle judges every call against THIS value
+        for tag, schema_py, schema_js in (('A', sc, scj), ('B', scb, scbj), ('A', sc, scj), ('B', scb, scbj)):
+            try:
+                p.type_check_references(schema_py)
+                out, msg = 'ok', ''
+            except Exception as e:  # noqa
+                out, msg = exc_name(e), str(e)[:300]
+            events.append({'kind': 'check', 'prop': snap, 'schema': schema_js, 'out': out})
+            info[len(events)] = ('[same object, schema %s] %s' % (tag, text), out, msg)
+            rep.clause('session:%s:%s' % (tag, out))
+    rep.count('multi_schema_sessions', nsess)
     for ev in helper_events():
         events.append(ev)
         info[len(events)] = (ev['kind'] + ':' + str(ev.get('what', ev.get('name', ev.get('tok', {}).get('name')))), '', '')
